@@ -204,6 +204,13 @@ def r4(ctx):
     ts = mr.tests(lambda e: isinstance(e, ast.Call) and dotted(e.func) == "self._config.response_match")
     ok = len(sets) == len(sn) == 1 and bool(ts) and all(mr.cfg.dominates(mr.branch(t, "true").id, n.id) for t in ts for n in sn)
     ctx.check(ok, R, "_message_received:set-only-on-match", m, mr.node, "the response event is set only under self._config.response_match(message), nowhere else", f"{len(sets)} set() sites; guarded={ok}")
+    # the event belongs to ONE manager: it is created per instance in __init__.  An object created in the class body is shared by
+    # every HeartbeatManager of the process, so the responses of one console re-arm the deadline of another, silent, link.
+    hci = m.get_class("HeartbeatManager")
+    ctx.require(hci is not None and "__init__" in hci.methods, f"{m.relpath}: HeartbeatManager.__init__ vanished")
+    per_inst = [a_ for a_ in ast.walk(hci.methods["__init__"]) if isinstance(a_, (ast.Assign, ast.AnnAssign)) and dotted(a_.targets[0] if isinstance(a_, ast.Assign) else a_.target) == "self._response_received" and isinstance(a_.value, ast.Call) and ctx.repo.qual(m, a_.value.func) == "asyncio.Event"]
+    shared = [st for st in hci.node.body if isinstance(st, (ast.Assign, ast.AnnAssign)) and getattr(st, "value", None) is not None and isinstance(st.value, ast.Call) and not (dotted(st.value.func) or "").split(".")[-1] in ("TypeVar", "field", "getLogger")]
+    ctx.check(bool(per_inst) and not shared, R, "HeartbeatManager:state-is-per-instance", m, (shared[0] if shared else hci.methods["__init__"]), "the response event is created in __init__ (one per manager); the class body creates no shared object", (f"class-level object `{norm_text(shared[0])[:70]}` is shared by every manager" if shared else "no `self._response_received = asyncio.Event()` in __init__"))
     for t in ts:
         a = t.ast.args[0] if t.ast.args else None
         ctx.check(isinstance(a, ast.Name) and a.id in mr.params[1:] and a.id == mr.params[-1], R, "_message_received:matches-the-message", m, t.ast, "the matcher is applied to the received message", unparse(a) if a is not None else "")
